@@ -192,8 +192,8 @@ def hs_member(rng):
 def gen_set_hist(rng):
     r = rng.random()
     init = [hs_member(rng) for _ in range(rng.choice([0, 1, 1, 2, 3, 4]))]
-    if r < 0.7:
-        # mostly a proper set: members distinct ignoring case
+    if r < 0.5:
+        # half of the time already a proper set: members distinct ignoring case
         seen, init2 = set(), []
         for x in init:
             if x.lower() not in seen:
@@ -235,10 +235,13 @@ def gen_set_hist(rng):
 
 def ref_set_hist(init, ops):
     """the documented meaning of a HeaderSet history - a case-insensitive ordered set - and whether
-    the history stays in C06's domain: initial members distinct ignoring case and no item assignment
-    that duplicates *another* member (known findings F08c / F08b otherwise)"""
-    members = list(init)
-    ok = len({m.lower() for m in members}) == len(members)
+    the history stays in C06's domain: no item assignment that duplicates *another* member (known
+    finding F08b otherwise; initial lists with case-duplicates are in the domain since F08c was repaired)"""
+    members = []
+    for x in init:  # the constructor runs the loop of update(): first spelling wins (repair 1a2e0e6)
+        if x.lower() not in [m.lower() for m in members]:
+            members.append(x)
+    ok = True
 
     def add(x):
         if x.lower() not in [m.lower() for m in members]:
@@ -460,7 +463,7 @@ class CodecPairs(Stream):
         {"codec": "list", "items": [hs(x) for x in items]}
         for items in [[], [""], ["a", "b c"], ['a"', "\\", ","], ["", ""], [" a "], ['"x"'], ["a", "", "b"]]
     ] + [
-        {"codec": "set", "items": [hs(x) for x in items]} for items in [[], ["a", "A"], ["foo", "bar baz"], [""]]
+        {"codec": "set", "items": [hs(x) for x in items]} for items in [[], ["a", "A"], ["foo", "bar baz"], [""], ["Cookie", "cookie", "X", "COOKIE"], ["a", "b", "A", "B", "a"], ["", ""], ["x y", "X Y"]]
     ] + [
         {"codec": "dict", "d": [[hs(k), opt(hs, v)] for k, v in d]}
         for d in [[], [("a", "b")], [("a", None)], [("a", "b c"), ("d", None), ("e", "")], [("a*", "x")], [("a*", "utf-8''%C3%A9")], [("k", 'q"\\')], [("a", "="), ("b", "x=y")]]
@@ -904,6 +907,8 @@ class CodecPairs(Stream):
         codec = case["codec"]
         if codec == "quote":
             return line("pair.quote", case["v"], b01(case["allow"]))
+        if codec == "set" and any(ord(c) > 0xFF and c.lower() != c.upper() for x in case["items"] for c in unhs(x)):
+            return None  # str.lower() above U+00FF is outside the model (case-insensitive de-duplication)
         if codec in ("list", "set"):
             return line("pair." + codec, out_list(case["items"]))
         if codec == "dict":
@@ -1155,8 +1160,9 @@ class CodecPairs(Stream):
         if codec == "set":
             from werkzeug.datastructures import HeaderSet
 
-            items = [unhs(x) for x in case["items"]]
-            return None if list(p) == items and p.as_set() == HeaderSet(items).as_set() else repr(p)
+            hs0 = HeaderSet([unhs(x) for x in case["items"]])  # the value: a header given in two spellings is kept once
+            same = list(p) == list(hs0) and p.as_set() == hs0.as_set() and len(p) == len(hs0) and p.as_set(True) == hs0.as_set(True)
+            return None if same else repr(p)
         if codec == "dict":
             exp = [(unhs(k), None if v == "~" else unhs(v)) for k, v in case["d"]]
             return None if list(p.items()) == exp else repr(p)
